@@ -1,7 +1,7 @@
 """C16 (partial): R-IDX, R-CAP, R-EOF, R-REC, R-DIV, R-WRAP, T-TBL, R-NULL over everything reachable from naken_asm."""
 from nk import report
 from nk.interval import Analyzer
-from rules import strs, wrap, idx, term, div, lane, tbl, null, expr, nulstep, onesided
+from rules import strs, wrap, idx, term, div, lane, tbl, null, expr, nulstep, onesided, dblstep
 from . import common
 
 EXPLANATION = (
@@ -31,7 +31,7 @@ def run(tier, t0):
                strs.strs(prog, cg, scope, 10), strs.str_loops(prog, scope, an, 0),
                wrap.wrap_loops(prog, lambda f: f.file.startswith(('fileio/write', 'main/naken_asm', 'core/')), an, 8),
                wrap.shift_term(prog), div.div_ovf(prog, scope, 10), strs.str_grow(prog, scope, 8), wrap.vla(prog, lambda f: f.file.startswith(('core/', 'asm/', 'fileio/', 'common/', 'main/'))),
-               nulstep.nul_step(prog, lambda f: f.file.startswith(('core/', 'asm/', 'main/naken_asm', 'fileio/write')) and f.file != 'core/UtilContext.cpp', 45), onesided.one_sided(prog)]
+               nulstep.nul_step(prog, lambda f: f.file.startswith(('core/', 'asm/', 'main/naken_asm', 'fileio/write')) and f.file != 'core/UtilContext.cpp', 45), onesided.one_sided(prog), dblstep.double_step(prog)]
     return report.finish('C16', tier, results, EXPLANATION,
                          ['the invariants listed for not-decided subscripts were read from the code and replayed under ASan '
                           'during triage; they are not re-proved by the check'], common.TRUSTED, t0)
